@@ -961,6 +961,14 @@ func (x *Exec) evalCall(env *Env, e *SExpr) Val {
 		// canonical decimal text of an integer: an abstract string determined by the number
 		v := arg(0).Term()
 		ln := App("dec.len", IntS, v)
+		if !hasFreeBinder(ln) {
+			// the decimal text of an integer has at least one character
+			st := env.cur
+			if st == nil {
+				st = env.st
+			}
+			st.assume(Le(IntC(1), ln))
+		}
 		return Val{T: types.Typ[types.String], L: []*Term{App("dec.str", IntS, v), x.idxConst(0), ln}}
 	case "mapHas", "mapGet":
 		m := arg(0)
